@@ -400,6 +400,27 @@ def check_setters(run, ix):
                                         'classes alias the list through _ctxdata)' % listname)
                     if isinstance(t, ast.Attribute) and t.attr == '_dps':
                         dps_store = st.value
+            # both stores must be unconditional: top-level statements, and
+            # nothing before them may leave the setter early
+            stores_done = 0
+            for st in f.node.body:
+                is_store = isinstance(st, ast.Assign) and any(
+                    (isinstance(t, ast.Subscript) and isinstance(t.value, ast.Attribute)
+                     and t.value.attr == listname) or
+                    (isinstance(t, ast.Attribute) and t.attr == '_dps') for t in st.targets)
+                if is_store:
+                    stores_done += sum(1 for t in st.targets if
+                                       (isinstance(t, ast.Subscript) and isinstance(t.value, ast.Attribute)
+                                        and t.value.attr == listname) or
+                                       (isinstance(t, ast.Attribute) and t.attr == '_dps'))
+                    continue
+                if stores_done < 2 and any(isinstance(x, (ast.Return, ast.Raise))
+                                           for x in ast.walk(st)):
+                    problems.append('an early exit (`%s`) can skip the update of the '
+                                    'precision pair' % norm(st, 60))
+            if elem_store and dps_store is not None and stores_done < 2:
+                problems.append('the stores to %s[0] and _dps are not unconditional '
+                                'top-level statements' % listname)
             if not elem_store:
                 problems.append('does not store the new precision into %s[0]' % listname)
             if dps_store is None:
